@@ -41,6 +41,7 @@ var extraAnchors = map[string][]string{
 	"C08": {pkgWriter + "\tChannelWriter\tcreateCollection", pkgWriter + "\tChannelWriter\tdropCollection", pkgWriter + "\tChannelWriter\tcreatePartition", pkgWriter + "\tChannelWriter\tdropPartition", pkgWriter + "\tChannelWriter\tdropDatabase"},
 	"C11": {pkgServer + "\tMetaCDC\tPause", pkgServer + "\tMetaCDC\tResume", pkgServer + "\tMetaCDC\tDelete"},
 	"C05": {pkgServer + "\tMetaCDC\treplicateMsgsFunc"},
+	"C01": {pkgReader + "\treplicateChannelManager\tStartReadCollection", pkgReader + "\treplicateChannelManager\tstartReadChannel", pkgReader + "\treplicateChannelHandler\tgetPartitionID", pkgReader + "\treplicateChannelHandler\tgetCollectionTargetInfo"},
 	"C09": {pkgWriter + "\tChannelWriter\tWaitObjReady", pkgWriter + "\tChannelWriter\tWaitDatabaseReady", pkgWriter + "\tChannelWriter\tWaitCollectionReady", pkgWriter + "\tChannelWriter\tWaitPartitionReady", pkgWriter + "\tChannelWriter\tWaitObjReadyForAPIEvent", pkgWriter + "\tChannelWriter\tUpdateNameMappings"},
 	"C20": {pkgWriter + "\tChannelWriter\tWaitObjReady", pkgWriter + "\tChannelWriter\tWaitPartitionReady", pkgWriter + "\tChannelWriter\tWaitCollectionReady", pkgWriter + "\t\tUpdateMsgBase"},
 }
@@ -250,6 +251,63 @@ func genericRules(w *World, r *Report, prop string) {
 					inside = blockReach(sb, nil)[h]
 				}
 				r.Check(inside, prop+"-G6", fmt.Sprintf("%s | container stored per iteration #%d", host, k), mu.Pos(), "allocated inside the loop", "the map/slice stored for each iteration is allocated once outside the loop: every entry of the outer container is the same object, so what is recorded for one item (e.g. one collection's seek positions) is seen — and overwritten — by all the others")
+			})
+		}
+	}
+	// the same for callbacks that run once per item: a struct built inside the literal must not share a container that
+	// the enclosing function allocated once
+	for _, root := range fns {
+		fam := familyOf(root)
+		for _, lit := range fam.Funcs {
+			if lit.Parent() == nil || syncCallbackSite(lit) == nil {
+				continue
+			}
+			host := shortFn2(lit)
+			k := 0
+			eachInstr(lit, func(in ssa.Instruction) {
+				st, ok := in.(*ssa.Store)
+				if !ok {
+					return
+				}
+				fa, ok := st.Addr.(*ssa.FieldAddr)
+				if !ok {
+					return
+				}
+				if al, isAl := fa.X.(*ssa.Alloc); !isAl || al.Parent() != lit {
+					return
+				}
+				switch st.Val.Type().Underlying().(type) {
+				case *types.Map, *types.Slice, *types.Chan:
+				default:
+					return
+				}
+				nG6++
+				k++
+				shared := ""
+				for _, x := range backSlice(st.Val, SliceOpts{MaxDepth: 3, NoAggregates: true}) {
+					fv, isFV := x.(*ssa.FreeVar)
+					if !isFV {
+						continue
+					}
+					c := fam.canon(fv)
+					var srcs []ssa.Value
+					if al, isAl := c.(*ssa.Alloc); isAl {
+						for _, s2 := range fam.stores[al] {
+							srcs = append(srcs, s2.Val)
+						}
+					} else {
+						srcs = append(srcs, c)
+					}
+					for _, sv := range srcs {
+						switch sv.(type) {
+						case *ssa.MakeMap, *ssa.MakeSlice, *ssa.MakeChan:
+							if parentOf(sv) != lit {
+								shared = fv.Name()
+							}
+						}
+					}
+				}
+				r.Check(shared == "", prop+"-G6", fmt.Sprintf("%s | field %s of a per-item struct #%d", host, fieldName(fa.X.Type(), fa.Field), k), st.Pos(), "not a container allocated once outside the callback", "the struct built for each item shares the map/slice `"+shared+"` that the enclosing function allocates once: what one item records (e.g. one shard's dropped partitions) is seen by all the others")
 			})
 		}
 	}
